@@ -82,9 +82,39 @@ func RunC14(ep *core.Episode) {
 	gb := GenRequest(tp, 1, true, GenOpt{MaxBody: 300, NoBodyGET: true})
 
 	// consumption program
+	multipartFile := 0
 	stop := L + 1 // > L: read until EOF (and beyond)
-	mode := tp.Weighted("cmode", []int{3, 4, 1, 1})
+	mode := tp.Weighted("cmode", []int{3, 4, 1, 1, 1})
 	switch mode {
+	case 4: // (added weight) the body is a multipart form and the handler asks for the parsed form
+		if stall {
+			break // a peer that goes silent while the form is pre-parsed is answered before any handler runs
+		}
+		fileSz := tp.Pick("mfile", 10, 3000, 9000)
+		epi := tp.Pick("mepi", 0, 2, 100, 9000)
+		mp := "--xyz\r\nContent-Disposition: form-data; name=\"f\"\r\n\r\nfield-value\r\n--xyz\r\nContent-Disposition: form-data; name=\"file\"; filename=\"a.bin\"\r\nContent-Type: application/octet-stream\r\n\r\n" +
+			string(core.PatternBytes(41, fileSz)) + "\r\n--xyz--\r\n" + string(core.PatternBytes(42, epi))
+		var hs []wire.Header
+		for _, h := range ga.M.Headers {
+			if !strings.EqualFold(h.K, "Content-Type") && !strings.EqualFold(h.K, "Content-Length") {
+				hs = append(hs, h)
+			}
+		}
+		ga.M.Headers = append(hs, wire.Header{K: "Content-Type", V: "multipart/form-data; boundary=xyz"})
+		ga.M.Body = []byte(mp)
+		ga.M.NoFraming = false // the encoder writes the framing header for the new body
+		if ga.M.Chunked {
+			ga.M.ChunkSizes = splitChunks(tp, len(mp))
+			ga.M.ChunkExts = nil
+		}
+		ga.Hostile = false
+		ga.Bytes, ga.Bounds = ga.M.Encode()
+		ga.HeadLen = strings.Index(string(ga.Bytes), "\r\n\r\n") + 4
+		body = ga.M.Body
+		L = len(body)
+		multipartFile = fileSz
+		stop = -2
+		ep.Probe("multipart-form")
 	case 0: // to EOF
 	case 1: // stop after k bytes
 		if L <= 64 {
@@ -193,6 +223,17 @@ func RunC14(ep *core.Episode) {
 		if len(invs) == 0 && uri == ga.M.Target && string(ctx.Request.Header.Method()) == ga.M.Method {
 			invs = append(invs, inv{which: "A"})
 			defer func() { handlerDone = true }()
+			if stop == -2 {
+				// the parsed form is one more way of consuming the body; what it contains is not this property's
+				// business, where the next request starts is
+				form, err := ctx.MultipartForm()
+				if err == nil && form != nil && len(form.File["file"]) == 1 && int(form.File["file"][0].Size) == multipartFile {
+					ep.Probe("multipart-form-parsed")
+				}
+				ctx.SetStatusCode(200)
+				ctx.Response.SetBodyString("A form")
+				return
+			}
 			if stop < 0 {
 				ctx.SetStatusCode(200)
 				ctx.Response.SetBodyString("A untouched")
@@ -315,6 +356,9 @@ func RunC14(ep *core.Episode) {
 		ga.Expect100 = false
 	} else {
 		ScriptRequests(tp, cl, []*GenReq{ga, gb}, mode2)
+	}
+	if mode == 4 {
+		ep.Logf("A bytes: %q", wire.Trunc(string(ga.Bytes), 700))
 	}
 	ep.Logf("A: %s; consume mode=%d stop=%d; B: %s; pipelined=%v bufsize=%d", describeReqs([]*GenReq{ga})[0], mode, stop, describeReqs([]*GenReq{gb})[0], pipelined, o.BufSize)
 	ep.Sig(fmt.Sprintf("A:%v:%s:%d:%v stop:%d:%v", ga.M.Chunked, core.BucketSize(L), len(ga.M.Trailers), ga.Expect100, mode, stop >= 0 && stop < L))
